@@ -6,6 +6,7 @@ import TvFs.Model.Spec
 import TvFs.Model.Patterns
 import TvFs.Proofs.Crash
 import TvFs.Proofs.Invents
+import TvFs.Proofs.Durable4
 
 namespace TV.C07
 open TV.Fs
@@ -136,6 +137,36 @@ theorem unsynced_entry_lost (s : Fs) (b : Option Nat) (t : List Nat) (p : Path)
     depend on the pending log at all -/
 theorem pending_rolled_back (s : Fs) (t : List Nat) (ops : List POp) :
     crash { s with pending := ops } none t = crash { s with pending := [] } none t := rfl
+
+/-- `C07_partial`: the full statement restricted to the flat fragment — histories of any length over
+    any number of files directly under the root and any number of handles: open with every flag
+    combination (create, create_new, append, truncate of empty files), positional and cursor reads and
+    writes with holes and overlaps, extending set_len, sync_all, sync_data, sync_dir of the root,
+    metadata / exists / fs::read / fs::write — crashed after any prefix (the fragment is prefix closed)
+    in the atomic-write configuration, for every torn-write oracle.  After the crash a file is present
+    iff the root was synced after its creation, with the content of its last data sync; everything
+    else is rolled back.  Proof: relation `D` between (persisted_files, synced_entries) and the
+    inode-level durable image, `dsim_step`, `crash_view`. -/
+theorem C07_partial (h : List Op) (hf : flatRun Live.init h = true) (ora : Ora) (n : Nat) :
+    let st := runSt {} St.init (quiet h ++ [(Op.crash, ora)])
+    let sp := sRunSt {} Spec.init (quiet h ++ [(Op.crash, ora)])
+    ancestorsAreDirs sp.l [n] = true → viewOf st.fs [n] = sView sp.l [n] := by
+  intro st sp _
+  obtain ⟨_, hD⟩ := flat_states h St.init Spec.init R_init D_init hf
+  show viewOf (runSt {} St.init (quiet h ++ [(Op.crash, ora)])).fs [n] =
+    sView (sRunSt {} Spec.init (quiet h ++ [(Op.crash, ora)])).l [n]
+  rw [runSt_append, sRunSt_append]
+  exact crash_view hD ora.torn ora.torn n
+
+/-- the flat fragment is not trivial: two files, one made durable (entry and data), one only
+    fsynced, later writes lost -/
+def flatExample : List Op :=
+  [.open 0 a { r := true, w := true, c := true }, .writeAt 0 1 [65, 66], .syncAll 0, .syncDir [],
+   .writeAt 0 0 [67], .open 1 b WC, .writeAt 1 0 [68], .syncAll 1, .setLen 0 5]
+
+example : flatRun Live.init flatExample = true := by decide
+example : viewOf (runSt {} St.init (quiet flatExample ++ [(Op.crash, ({} : Ora))])).fs a = .file 3 [0, 65, 66] := by decide
+example : viewOf (runSt {} St.init (quiet flatExample ++ [(Op.crash, ({} : Ora))])).fs b = .none := by decide
 
 def bytesWritten (h : List (Op × Ora)) : List Nat := h.flatMap fun x => opData x.1
 
